@@ -49,9 +49,9 @@ func init() {
 			{Name: "chainsync", Engine: chain.Engine{Prop: "C12"}, Quick: 400, Thorough: 8000,
 				Rule: "a run is non-trivial when at least three heights were produced and at least one new node joined the running chain by state sync (donor checkpoint through the real ABCI ListSnapshots/LoadSnapshotChunk, joiner through OfferSnapshot/ApplySnapshotChunk with lying peers in between), held exactly the donor's state and replayed the later blocks identically", Weight: 2},
 		},
-		Real:        []string{"storage/mkvs/checkpoint file creator, sequential and parallel chunker (real goroutines), restorer, chunk proof verification", "badger and pathbadger multipart insert on tmpfs directories"},
-		Stub:        []string{"goroutine scheduling of the parallel chunker: a harness scheduler parks every chunk task at verifhook points and releases one at a time in a seeded order", "concurrent RestoreChunk callers are interleaved inline at the restorer hooks", "chunk transport (bytes handed over directly, corrupted by seeded operators)"},
-		Assumptions: []string{"the checkpoint metadata (root, digests) comes from a trusted source unless the corruption operator says the attacker also controls the digest list"},
+		Real:        []string{"storage/mkvs/checkpoint file creator, sequential and parallel chunker (real goroutines), restorer, chunk proof verification", "badger and pathbadger multipart insert on tmpfs directories", "chain level (batch chainsync): ABCI ListSnapshots / LoadSnapshotChunk on the donor and OfferSnapshot / ApplySnapshotChunk on the joiner (abci/snapshots.go), doApplyStateSync, the state-sync-completed notification of the applications, the LocalBackend checkpointer on the donor's live consensus database, the full ABCI mux + all consensus apps + CometBFT BlockExecutor of donor and joiner (the joiner replays the later blocks and prunes)"},
+		Stub:        []string{"goroutine scheduling of the parallel chunker: a harness scheduler parks every chunk task at verifhook points and releases one at a time in a seeded order", "concurrent RestoreChunk callers are interleaved inline at the restorer hooks", "chunk transport (bytes handed over directly, corrupted by seeded operators)", "chain level: CometBFT's statesync reactor and light-client state provider (the harness offers snapshots and chunks in the order and with the lies the scenario says, takes the trusted application hash from the decided chain and bootstraps the joiner's CometBFT state the way the state provider does); the chain simulator's consensus/mempool/evidence stubs; the joiner's crash is an in-process image of its data directory"},
+		Assumptions: []string{"the checkpoint metadata (root, digests) comes from a trusted source unless the corruption operator says the attacker also controls the digest list", "chain level: only the application hash of the checkpoint height is trusted; an offered manifest's root version/type/namespace and format field are not bound to it and are not judged"},
 	})
 	reg(&core.Property{
 		ID: "C07", Level: "fault_enumeration",
